@@ -247,7 +247,7 @@ Lemma opt_wire_form :
   (forall e : ecs,
      opt_wire (OEcs e) =
      let body := u16b (a_fam (e_addr e)) ++ u8b (e_src e) ++ u8b (e_scope e) ++
-                 takeN (N.max (e_src e) (e_scope e) / 8 + 1) (a_oct (e_addr e)) in
+                 takeN (N.max (addr_significant (a_oct (e_addr e))) ((e_src e + 7) / 8)) (a_oct (e_addr e)) in
      u16b 8 ++ u16b (lenN body) ++ body) /\
   (forall c : cookie,
      opt_wire (OCookie c) =
